@@ -692,6 +692,8 @@ pub fn encode_with_fixed_block_size<T: Source>(
         }
     }
     let mut stream = Stream::new(src.sample_rate(), src.channels(), src.bits_per_sample())?;
+    // asked before reading: the hint of a partly consumed source is what is left of it.
+    let src_len_hint = src.len_hint();
     let mut framebuf_and_context = (
         FrameBuf::with_size(src.channels(), block_size)?,
         Context::new(src.bits_per_sample(), src.channels()),
@@ -732,7 +734,7 @@ pub fn encode_with_fixed_block_size<T: Source>(
         .set_md5_digest(&context.md5_digest());
     stream
         .stream_info_mut()
-        .set_total_samples(src.len_hint().unwrap_or_else(|| context.total_samples()));
+        .set_total_samples(src_len_hint.unwrap_or_else(|| context.total_samples()));
     Ok(stream)
 }
 
